@@ -287,6 +287,15 @@ func TestC19(t *testing.T) {
 		if c.Thorough {
 			n = 3000
 		}
+		// programs of every semantic generator of the other checks (scopes, calls, arrays, objects, faults, operator
+		// ladders, coinciding names, …) through the executable: status and streams classify each run
+		c.Rapid("seed-programs", n/2, func(rt *rapid.T, s *Sub) {
+			sp := drawSeed(rt, nil)
+			if strings.Contains(sp.Src, bn.BClock) {
+				return
+			}
+			c.c19Script(s, "seed-programs", sp.Src, sp.Stdin, "seed-"+strings.SplitN(sp.Kind, "/", 2)[0])
+		})
 		c.Rapid("rand-programs", n, func(rt *rapid.T, s *Sub) {
 			g := &c05Gen{budget: rapid.IntRange(3, 14).Draw(rt, "budget")}
 			g.pick = func(label string, n int) int { return rapid.IntRange(0, n-1).Draw(rt, label) }
